@@ -130,3 +130,75 @@ def extract(read):  # noqa: F811  (wraps the table extractor above)
     text += ("\n/-- the parser functions that call `enter_nesting` -/\n"
              "def parserGuardedFns : List String := [%s]\n" % ", ".join('"%s"' % g.split(":", 1)[1] for g in sorted(guarded)))
     return text
+
+
+# ---- tree-building loops: every link of a left-deep chain must be counted -------------------------
+def _block_end(src, j):
+    d, k = 0, j
+    while k < len(src):
+        if src[k] == "{":
+            d += 1
+        elif src[k] == "}":
+            d -= 1
+            if d == 0:
+                return k
+        k += 1
+    return len(src) - 1
+
+
+def _tree_loops(read):
+    """every `while`/`loop` of the parser whose body re-assigns a variable to a node that boxes the
+    variable's previous value (`left = Node { left: Box::new(left), .. }`): a chain of n links becomes a
+    tree of depth n.  counted = the loop body calls `check_chain_length` at its top level (not inside
+    a branch) before the wrapping assignment, i.e. on every path that extends the chain."""
+    base = "crates/vibesql-parser/src/parser"
+    repo = _os.environ.get("VERIF_REPO", "/repo")
+    rows = []
+    for dp, _dn, fns in sorted(_os.walk(_os.path.join(repo, base))):
+        for f in sorted(fns):
+            if not f.endswith(".rs"):
+                continue
+            rel = _os.path.relpath(_os.path.join(dp, f), repo)
+            src = _strip(read(rel))
+            for m in re.finditer(r"\b(?:while\b[^{;]*|loop\s*)\{", src):
+                j = m.end() - 1
+                body = src[j + 1:_block_end(src, j)]
+                for w in re.finditer(r"\b(\w+)\s*=\s*[\w:]+\s*(?:\{|\()", body):
+                    var = w.group(1)
+                    d, e = 0, w.end() - 1
+                    while e < len(body):
+                        c = body[e]
+                        if c in "{(":
+                            d += 1
+                        elif c in "})":
+                            d -= 1
+                        elif c == ";" and d == 0:
+                            break
+                        e += 1
+                    if not re.search(r"Box::new\(\s*%s\s*\)" % re.escape(var), body[w.start():e]):
+                        continue
+                    pre = body[:w.start()]
+                    depths = [pre[:c.start()].count("{") - pre[:c.start()].count("}")
+                              for c in re.finditer(r"check_chain_length", pre)]
+                    fn = re.findall(r"fn\s+(\w+)", src[:m.start()])
+                    rows.append((fn[-1] if fn else "?", 1 if 0 in depths else 0))
+                    break
+    return rows
+
+
+_extract_graph = extract
+
+
+def extract(read):  # noqa: F811  (wraps the extractors above)
+    text = _extract_graph(read)
+    rows = _tree_loops(read)
+    psrc = read("crates/vibesql-parser/src/parser/mod.rs")
+    m = re.search(r"pub const MAX_CHAIN_LENGTH\s*:\s*usize\s*=\s*([0-9_]+)\s*;", psrc)
+    if not rows or not m:
+        return text + "\n-- parserTreeLoops / parserMaxChainLength: NOT FOUND in source (dependent theorems will not build)\n"
+    text += ("\n/-- parser/mod.rs `MAX_CHAIN_LENGTH` -/\ndef parserMaxChainLength : Nat := %d\n" % int(m.group(1).replace("_", "")))
+    text += ("\n/-- parser/**/*.rs: the loops that wrap their previous result into a new boxed node (left-deep tree builders),\n"
+             "    by enclosing function; 1 = `check_chain_length` is called at the top level of the loop body before the\n"
+             "    wrapping assignment (every link is counted), 0 = not. -/\n"
+             "def parserTreeLoops : List (String × Nat) := [%s]\n" % ", ".join('("%s", %d)' % r for r in rows))
+    return text
